@@ -29,17 +29,17 @@ var weights = map[string]int{"encrypt": 8, "decrypt": 8, "open": 1, "close": 2, 
 
 func TestWorldMemguard(t *testing.T) {
 	kit.Steps(30)
-	kit.Check(t, 60, 4800, func(t *rapid.T) { runHistory(t, "memguard") })
+	kit.Check(t, 150, 4800, func(t *rapid.T) { runHistory(t, "memguard") })
 }
 
 func TestWorldProtectedMemory(t *testing.T) {
 	kit.Steps(30)
-	kit.Check(t, 60, 4800, func(t *rapid.T) { runHistory(t, "protectedmemory") })
+	kit.Check(t, 150, 4800, func(t *rapid.T) { runHistory(t, "protectedmemory") })
 }
 
 func TestWorldTracker(t *testing.T) {
 	kit.Steps(40)
-	kit.Check(t, 150, 16000, func(t *rapid.T) { runHistory(t, "tracker") })
+	kit.Check(t, 500, 16000, func(t *rapid.T) { runHistory(t, "tracker") })
 }
 
 func runHistory(t *rapid.T, factory string) {
